@@ -526,3 +526,62 @@ Definition produce (p : producer) (q : hdr) : option (hdr * bool) :=
   | PCut => if h_cd q then None else Some (with_rcode_ra_ad (apply_reply zero_hdr q) rcode_nxdomain true, true)
   | PFailure => Some (with_rcode_ra_ad (apply_reply zero_hdr q) rcode_servfail false, false)
   end.
+
+(* ---- the cache's Msg-path producers (session 5) ----
+   Every route of Cache.ServeDNS that answers from cached state through ch.Writer.WriteMsg: the header
+   of the message handed to the writer chain.  Its question section is the request's first question,
+   spelling included, on every route, byte path or Msg path ([product_q]). *)
+(* dns.Msg.SetReply run on a message that already has a header [st] (an unpacked entry, a copied
+   proof, or a fresh message = zero_hdr): Id, QR and the opcode come from the request; RD and CD are
+   copied only for opcode 0; the rcode is reset; every other bit stays *)
+Definition set_reply_on (st q : hdr) : hdr :=
+  let q0 := h_opcode q =? 0 in
+  mk_hdr (h_id q) true (h_opcode q) (h_aa st) (h_tc st) (if q0 then h_rd q else h_rd st) (h_ra st) (h_z st) (h_ad st)
+         (if q0 then h_cd q else h_cd st) 0.
+(* CacheEntry.ToMsg: Unpack(e.wire), SetReply(req), rcode restored, Id, Authoritative = false,
+   AuthenticatedData = false for a CD request *)
+Definition to_msg_hdr (st q : hdr) : hdr :=
+  let h := set_reply_on st q in
+  mk_hdr (h_id h) (h_qr h) (h_opcode h) false (h_tc h) (h_rd h) (h_ra h) (h_z h)
+         (if h_cd q then false else h_ad h) (h_cd h) (h_rcode st).
+(* one answer of the internal sub-pipeline to the alias chase (Cache.additionalAnswer): its AD bit,
+   its rcode, whether it carried answer or authority records *)
+Record sub := mk_sub { s_ad : bool; s_rcode : N; s_recs : bool }.
+Definition set_hrcode (h : hdr) (rc : N) : hdr :=
+  mk_hdr (h_id h) (h_qr h) (h_opcode h) (h_aa h) (h_tc h) (h_rd h) (h_ra h) (h_z h) (h_ad h) (h_cd h) rc.
+(* additionalAnswer, as far as the header goes: a sub-response that carries records is merged by
+   searchAdditionalAnswer (AD stays only if the sub-response has it too); an NXDOMAIN sub-response
+   ends the chase and becomes the rcode.  (The exits through dnsutil.SetRcode — alias loop, work
+   limits — are not modelled: the drivers do not reach them.) *)
+Fixpoint msg_chase (h : hdr) (subs : list sub) : hdr :=
+  match subs with
+  | [] => h
+  | s :: r =>
+      let h1 := if s_recs s && h_ad h && negb (s_ad s) then set_ad h false else h in
+      if s_rcode s =? rcode_nxdomain then set_hrcode h1 rcode_nxdomain else msg_chase h1 r
+  end.
+Inductive mproducer :=
+| MEntry (st : hdr) (subs : list sub)   (* handleCacheHit: entry.ToMsg(req), then additionalAnswer *)
+| MCut (stc : hdr)                      (* handleNXDomainCutHit: nxDomainCutEntry.response(req) on the stored proof *)
+| MFailure                              (* handleFailureHit: FailureHit.Response(req) *)
+| MNoRec.                               (* RD = 0: Chain.CancelWithRcode(SERVFAIL, false) before any lookup *)
+Definition produce_msg (p : mproducer) (q : hdr) : option hdr :=
+  match p with
+  | MEntry st subs => Some (msg_chase (to_msg_hdr st q) subs)
+  | MCut stc =>
+      if h_cd q then None
+      else let h := set_reply_on stc q in
+           Some (mk_hdr (h_id h) (h_qr h) (h_opcode h) false (h_tc h) (h_rd h) true (h_z h) true false rcode_nxdomain)
+  | MFailure =>
+      let h := set_reply_on zero_hdr q in
+      Some (mk_hdr (h_id h) (h_qr h) (h_opcode h) false false (h_rd h) true (h_z h) false (h_cd h) rcode_servfail)
+  | MNoRec =>
+      if h_rd q then None
+      else Some (mk_hdr (h_id q) true (h_opcode q) false false true true false false ((h_opcode q =? 0) && h_cd q) rcode_servfail)
+  end.
+(* the question section of every product of the cache: SetReply's / the byte composers' copy of the
+   request's first question *)
+Definition product_q (q : msg) : list quest := firstn 1 (m_q q).
+(* the sub-response the internal pipeline gives for a cached hop: ToMsg of the hop's entry for the
+   chase's own request (CD copied from the outer message) *)
+Definition sub_of_hop (cd : bool) (hop : hdr) : sub := mk_sub (h_ad hop && negb cd) (h_rcode hop) true.
